@@ -465,7 +465,7 @@ class Ctx:
 # known findings
 # ----------------------------------------------------------------------------
 def load_known(prop):
-    path = os.path.join(VERIF, "known_findings.json")
+    path = os.path.join(VERIF, "known_findings", prop + ".json")
     if not os.path.exists(path):
         return [], []
     data = json.load(open(path))
